@@ -14,10 +14,14 @@ struct Shrinker<'a> {
     evals: u32,
     max_evals: u32,
     best_v: Violation,
+    /// false once the failure is known to reproduce with tasks run one after the other
+    schedule_matters: bool,
+    /// schedule seed (of the last episode) under which the current candidate fails
+    good_seed: Option<u64>,
 }
 
 impl Shrinker<'_> {
-    fn still_fails(&mut self, cand: &[Episode]) -> bool {
+    fn fails_once(&mut self, cand: &[Episode]) -> bool {
         if self.evals >= self.max_evals {
             return false;
         }
@@ -32,6 +36,33 @@ impl Shrinker<'_> {
             },
             Err(_) => false,
         }
+    }
+
+    /// Does the candidate still fail? Dropping an operation shifts the seeded schedule, so
+    /// a schedule-dependent failure may hide; in that case a few other schedule seeds are
+    /// tried for the last episode and, if one fails, it becomes part of the candidate.
+    fn still_fails(&mut self, cand: &[Episode]) -> bool {
+        let mut cand: Vec<Episode> = cand.to_vec();
+        let Some(last) = cand.len().checked_sub(1) else { return false };
+        if let Some(sd) = self.good_seed {
+            cand[last].sched.seed = sd;
+        }
+        if self.fails_once(&cand) {
+            return true;
+        }
+        if !self.schedule_matters || matches!(cand[last].sched.policy, Policy::Sequential) {
+            return false;
+        }
+        let orig = cand[last].sched.seed;
+        for k in 1..=4u64 {
+            let sd = crate::rng::mix(orig, k);
+            cand[last].sched.seed = sd;
+            if self.fails_once(&cand) {
+                self.good_seed = Some(sd);
+                return true;
+            }
+        }
+        false
     }
 }
 
@@ -75,12 +106,30 @@ pub fn minimise(episodes: &[Episode], v: &Violation, pristine: &str) -> (Vec<Epi
         class: v.class(),
         pristine,
         evals: 0,
-        max_evals: 400,
+        max_evals: 600,
         best_v: v.clone(),
+        schedule_matters: true,
+        good_seed: None,
     };
     let mut cur: Vec<Episode> = episodes.to_vec();
     let ops_before: usize = cur.iter().map(|e| e.n_ops()).sum();
     let eps_before = cur.len();
+
+    // 0. is the schedule relevant at all? (most history defects fail with tasks run in id order;
+    //    then every later step is independent of PRNG consumption)
+    {
+        let last = cur.len() - 1;
+        if cur[last].sched.policy != Policy::Sequential {
+            let mut cand = cur.clone();
+            cand[last].sched.policy = Policy::Sequential;
+            if s.fails_once(&cand) {
+                cur = cand;
+                s.schedule_matters = false;
+            }
+        } else {
+            s.schedule_matters = false;
+        }
+    }
 
     // 1. episodes (the last one is where the violation shows)
     if cur.len() > 1 {
@@ -207,6 +256,9 @@ pub fn minimise(episodes: &[Episode], v: &Violation, pristine: &str) -> (Vec<Epi
         }
     }
 
+    if let (Some(sd), Some(last)) = (s.good_seed, cur.len().checked_sub(1)) {
+        cur[last].sched.seed = sd;
+    }
     let ops_after: usize = cur.iter().map(|e| e.n_ops()).sum();
     let mut final_v = s.best_v.clone();
     if let Ok(o) = exec_fresh(&cur, pristine) {
